@@ -116,4 +116,42 @@ def checkP (pre : Dir) (assigned : List Nat) (now : Int) (post : Dir) : Option S
   | some f => some (if hasBase pre.index f.compound f.key then "trash-deleted-early-basename-collision" else "trash-deleted-early")
   | none => if post.tmps != 0 then some "tmp-files-left" else none
 
+/-! ### the failure keys used by the driver: the compound-shard class narrowed by the shard-merging setting
+
+`lossClass` above is as wide as the exclusion of theorem `assigned_kept_partial` (the file also holds a repository that
+has to leave it).  The code, however, only *deletes* such a compound shard when it cannot tombstone: shard merging off,
+or shard merging on and the unassigned repository has a second shard (`maybeSetTombstone` wants exactly one).  With
+shard merging on and a single shard the repository must be tombstoned and the file must stay; losing it is `assigned-lost`. -/
+
+/-- number of (index file, alive entry) pairs of repository `id` -/
+def aliveCount (files : List File) (id : Nat) : Nat :=
+  (files.flatMap fun f => f.repos.filter fun r => r.id == id && !r.tomb).length
+
+def cannotTombstone (pre : Dir) (assigned : List Nat) (merging : Bool) (f : File) : Bool :=
+  f.repos.any fun r => !r.tomb &&
+    (if merging then !assigned.contains r.id && consistent pre.index r.id && decide (aliveCount pre.index r.id ≥ 2)
+     else !assigned.contains r.id || !consistent pre.index r.id)
+
+def lossClassM (pre : Dir) (assigned : List Nat) (merging : Bool) (f : File) : String :=
+  if cannotTombstone pre assigned merging f then
+    (if f.compound then "assigned-lost-compound-shard-deleted" else "assigned-lost-shared-simple-shard")
+  else if hasBase pre.trash f.compound f.key then "assigned-lost-basename-collision"
+  else "assigned-lost"
+
+def lossKeyM (pre : Dir) (assigned : List Nat) (merging : Bool) (lost : List (Nat × File)) : Option String :=
+  match lost with
+  | [] => none
+  | p :: _ =>
+    if lost.any (fun q => lossClassM pre assigned merging q.2 == "assigned-lost") then some "assigned-lost"
+    else some (lossClassM pre assigned merging p.2)
+
+/-- `checkP` with the narrowed keys (same clauses, same order) -/
+def checkPM (pre : Dir) (assigned : List Nat) (now : Int) (merging : Bool) (post : Dir) : Option String :=
+  match lossKeyM pre assigned merging (lostPairs pre post assigned) with
+  | some k => some k
+  | none =>
+    match checkP pre assigned now post with
+    | some k => if (lostPairs pre post assigned).isEmpty then some k else none
+    | none => none
+
 end ZoektModel.C32
